@@ -15,10 +15,10 @@ use std::process::{Command, Stdio};
 pub fn meta() -> Meta {
     Meta {
         id: "C12",
-        rule: "generated programs (terminating, endless, error-stopping, interrupt-driven; expressed as source text) x cycle budgets {0, 1, 2, around the halting cycle, random below 3000, and for endless programs 65 535 .. 131 873 with schedule positions around 65 536} x interrupt/reset multisets (duplicates, cycle 0, the last cycle, beyond the end, both at the same cycle) x machine configurations; library: RunnerConfig::run() must equal (full Machine equality) the harness's own stepping of the statement's loop and report the number of edges issued; RunExpectations::verify over all 8 expectation subsets x matching/mismatching values; CLI: `2a-emulator run ... [verify ...]` with numbers rendered in all three radices: printed Cycles/State/FE/FF and the exit status must follow from the same stepping; unreadable / invalid files and failing verification must exit non-zero, everything else zero. distinct_nontrivial counts distinct (final state, budget class, #interrupts, #resets, halted-early?) classes",
+        rule: "generated programs (terminating, endless, error-stopping, interrupt-driven; expressed as source text) x cycle budgets {0, 1, 2, around the halting cycle, random below 3000, and for endless programs 65 535 .. 131 873 with schedule positions around 65 536} x interrupt/reset multisets (duplicates, cycle 0, the last cycle, beyond the end, both at the same cycle) x machine configurations; library: RunnerConfig::run() must equal (full Machine equality) the harness's own stepping of the statement's loop and report the number of edges issued; RunExpectations::verify over all 8 expectation subsets x matching/mismatching values (CLI also: expectations of 256 and more, which must never verify); CLI: `2a-emulator run ... [verify ...]` with numbers rendered in all three radices: printed Cycles/State/FE/FF and the exit status must follow from the same stepping; unreadable / invalid files and failing verification must exit non-zero, everything else zero. distinct_nontrivial counts distinct (final state, budget class, #interrupts, #resets, halted-early?) classes",
         exhaustive: false,
         assumptions: vec!["interrupt before reset when both are scheduled for the same cycle (order of the statement)", "the program is translated with the real parser/translator (C02/C03 own those)"],
-        floors: vec![("library_runs", 5_000), ("runs_halting_early", 500), ("runs_with_interrupts_taken", 200), ("verify_checks", 40_000), ("cli_runs", 60), ("cli_verify_failures_expected", 10), ("cli_bad_files", 8), ("runs_with_budget_over_16_bits", 50), ("cli_runs_with_budget_over_16_bits", 5)],
+        floors: vec![("library_runs", 5_000), ("runs_halting_early", 500), ("runs_with_interrupts_taken", 200), ("verify_checks", 40_000), ("cli_runs", 60), ("cli_verify_failures_expected", 10), ("cli_bad_files", 8), ("runs_with_budget_over_16_bits", 50), ("cli_runs_with_budget_over_16_bits", 5), ("cli_expectations_beyond_a_byte", 3)],
     }
 }
 
@@ -471,6 +471,7 @@ fn check_cli(ctx: &Ctx, c: &Case, tag: &str, rng: &mut Rng, rep: &mut Report) ->
     let subset = rng.below(8) as u8;
     let wrong = if rng.chance(1, 3) { rng.below(8) as u8 & subset } else { 0 };
     let use_verify = rng.chance(2, 3);
+    let mut unsatisfiable = false;
     if use_verify {
         args.push("verify".into());
         let sname = |s: State| match s {
@@ -499,17 +500,36 @@ fn check_cli(ctx: &Ctx, c: &Case, tag: &str, rng: &mut Rng, rep: &mut Report) ->
             args.push("--ff".into());
             args.push(radix(rng, if wrong & 4 != 0 { ff ^ 0x80 } else { ff }));
         }
+        // an expectation no byte can equal (the machine's value plus a multiple of 256): the tool may
+        // refuse the argument or fail the verification, but it must not succeed
+        if subset & 6 != 0 && rng.chance(1, 10) {
+            let pos = args.iter().rposition(|a| a == "--fe" || a == "--ff").unwrap();
+            let v = (if args[pos] == "--fe" { fe } else { ff }) as u32 + 256 * (1 + rng.below(255) as u32);
+            args[pos + 1] = match rng.below(3) {
+                0 => format!("{}", v),
+                1 => format!("0x{:X}", v),
+                _ => format!("0b{:b}", v),
+            };
+            unsatisfiable = true;
+        }
     }
     let out = Command::new(emu).args(&args).env("TMPDIR", &dir).env("NO_COLOR", "1").env("RUST_BACKTRACE", "0").stdin(Stdio::null()).stdout(Stdio::piped()).stderr(Stdio::piped()).output().ok()?;
     let _ = std::fs::remove_file(&path);
     rep.inc("cli_runs");
     let stdout = strip_ansi(&String::from_utf8_lossy(&out.stdout));
-    let expect_fail = use_verify && wrong != 0;
+    let expect_fail = use_verify && (wrong != 0 || unsatisfiable);
     if expect_fail {
         rep.inc("cli_verify_failures_expected");
     }
     let code = out.status.code();
     let wit_args = args.join(" ");
+    if unsatisfiable {
+        rep.inc("cli_expectations_beyond_a_byte");
+        if code == Some(0) {
+            return Some(("C12:cli-exit-status".into(), format!("an expectation of 256 or more cannot equal a register, but the exit status is 0: {}", wit_args)));
+        }
+        return None;
+    }
     if expect_fail && code == Some(0) {
         return Some(("C12:cli-exit-status".into(), format!("verification must fail but the exit status is 0: {}", wit_args)));
     }
